@@ -1842,6 +1842,7 @@ insert_list:
             return -1;
         }
 
+        PHOTON_VERIF_POINT(verif::GUARD, this, splock.locked(), 1);
         int ret = thread_usleep_defer(timeout,
             (thread_list*)&q, &spinlock_unlock, &splock);
         if (likely(ret < 0 && errno == -1)) {
@@ -1861,6 +1862,7 @@ insert_list:
     inline void do_mutex_unlock(mutex* m)
     {
         SCOPED_LOCK(m->splock);
+        PHOTON_VERIF_POINT(verif::GUARD, m, m->splock.locked(), 2);
         ScopedLockHead h(m);
         m->owner.store(unlikely(m->_contending) ? nullptr : (thread*)h);
         PHOTON_VERIF_POINT(verif::MUTEX_UNLOCK, m, m->owner.load(), (thread*)h);
@@ -1955,6 +1957,7 @@ insert_list:
         counter = count;
         DEFER(counter = 0);
         bool woken = false;
+        PHOTON_VERIF_POINT(verif::GUARD, this, splock.locked(), 3);
         while (!try_subtract(count)) {
             if (woken) {
                 // the tokens this waiter was woken for have been taken by someone else;
@@ -1964,6 +1967,7 @@ insert_list:
             woken = true;
             int ret = waitq::wait_defer(timeout, spinlock_unlock, &splock);
             splock.lock();  // assuming errno NOT changed
+            PHOTON_VERIF_POINT(verif::GUARD, this, splock.locked(), 4);
             if (unlikely(ret < 0)) {    // got interrupted
                 uint64_t cnt;
                 if (!m_ooo_resume && (cnt = m_count.load())) {
@@ -1978,6 +1982,7 @@ insert_list:
     }
     void semaphore::try_resume(uint64_t cnt) {
         assert(cnt);
+        PHOTON_VERIF_POINT(verif::GUARD, this, splock.locked(), 5);
         PHOTON_VERIF_POINT(verif::SEM_PASS, this, cnt, 0);
         while(true) {
             ScopedLockHead h(this);
